@@ -20,11 +20,14 @@
 //!             the real serializer: the model cannot predict `find_path`, it *validates* these bytes.
 //! Reply
 //!   `ok <r1>,<r2>,… <complete|partial>`  ri = `0:<size>` | `1:<size>` | `u:<size>` | `p`
-//!   `err invalid`           the completed output does not decode to the assembled tree (implementation
-//!                           side) / a recorded step is not what the protocol model produces, or a
-//!                           retained addition contains an invalid back-reference (model side; an invalid
-//!                           back-reference in an addition that is undone later cannot be seen in the
-//!                           final bytes and is tolerated by the stream verdict, `INCWHY` reports it)
+//!   `err wrong-decode known=<tag>`  the completed output does not decode to the assembled tree.  The
+//!                           Lean side runs a *faithful* model of `TreeCache` + `Serializer` and answers
+//!                           the same only if it computes exactly the recorded bytes; `<tag>` names the
+//!                           shape of the history (`shape_tag`, the same rule on both sides, from the
+//!                           request alone).  `./check` (key `reply_failures`) reports an *agreed* wrong
+//!                           decode under the known finding `<tag>`; a wrong decode the model does not
+//!                           reproduce, or one without a known shape, is a new violation.
+//!   (model only) `err model-differs step=<i> model=<…>`  the recorded step is not what the model computes
 //!   `err nondeterministic`  re-running the history (new salt) gave other bytes than the recorded ones
 //!   `panic`                 a panic anywhere but in an `add` after completion
 use crate::rng::Rng;
@@ -380,15 +383,37 @@ pub fn run(args: &[&str]) -> String {
     if !complete {
         return format!("ok {} partial", got.iter().map(|o| o.fmt_size()).collect::<Vec<_>>().join(","));
     }
-    let Some(want) = assemble(&ex.trees, sent.marker()) else { return "err invalid".into() };
+    let wrong = format!("err wrong-decode known={}", shape_tag(&sent, &steps));
+    let Some(want) = assemble(&ex.trees, sent.marker()) else { return wrong };
     let mut a2 = Allocator::new();
     let bytes = ex.ser.get_ref().clone();
     match catch_unwind(AssertUnwindSafe(|| node_from_bytes_backrefs(&mut a2, &bytes))) {
         Ok(Ok(n)) if same_tree(&a2, n, &want) == Ok(true) => {}
-        Ok(_) => return "err invalid".into(),
+        Ok(_) => return wrong,
         Err(_) => return "panic".into(),
     }
-    format!("ok {} {}", got.iter().map(|o| o.fmt_size()).collect::<Vec<_>>().join(","), if complete { "complete" } else { "partial" })
+    format!("ok {} complete", got.iter().map(|o| o.fmt_size()).collect::<Vec<_>>().join(","))
+}
+
+/// The shape of a history, from the request alone (the Lean side computes the same, `Proto/Incremental.lean`
+/// `shapeTag`): L — an addition with two or more sentinels is followed by another addition; N — the same
+/// pair with a sentinel below it occurs twice among the `adds` trees; M — an undo is followed by an
+/// addition.  It only *names* the known finding a wrong decode is reported under; that it is known is
+/// decided by the faithful model reproducing the bytes.
+pub fn shape_tag(sent: &Sent, steps: &[Step]) -> &'static str {
+    let m = sent.marker();
+    let later_add = |i: usize| steps[i + 1..].iter().any(|s| matches!(s, Step::Add { .. }));
+    if steps.iter().enumerate().any(|(i, s)| matches!(s, Step::Add { tree, .. } if holes(tree, m) >= 2) && later_add(i)) {
+        return "L-incremental-multi-sentinel";
+    }
+    let adds: Vec<(bool, T)> = steps.iter().filter_map(|s| if let Step::Add { shared, tree } = s { Some((*shared, tree.clone())) } else { None }).collect();
+    if shape_shared_dup(&adds, m) {
+        return "N-incremental-shared-sentinel-node";
+    }
+    if steps.iter().enumerate().any(|(i, s)| matches!(s, Step::Undo { .. }) && later_add(i)) {
+        return "M-incremental-undo-stale-parents";
+    }
+    "none"
 }
 
 // ------------------------------------------------------------------ generators
@@ -982,54 +1007,39 @@ pub fn check_history(rep: &mut OracleReport, sent: &Sent, steps: &[Step], rng: &
     }
     let classic = trees::encode(&want);
     rep.hit(if bytes.len() <= classic.len() { "len<=classic" } else { "len>classic" });
-    // only a wrong decode that `attribute` ties to a known finding is reported under that finding's name
-    let retained: Vec<(bool, T)> = ex.flags.iter().cloned().zip(ex.trees.iter().cloned()).collect();
-    let mut attributed: Option<Option<&'static str>> = None;
-    let mut dk_of = |rep: &mut OracleReport| -> (Option<&'static str>, String) {
-        let r = *attributed.get_or_insert_with(|| attribute(sent, steps, !complete, &retained));
-        rep.hit(match r {
-            None => "wrong-decode:unattributed",
-            Some(x) if x.contains("-L-") => "wrong-decode:L",
-            Some(x) if x.contains("-N-") => "wrong-decode:N",
-            Some(_) => "wrong-decode:M",
-        });
-        (r, match r {
-            Some(x) => format!("{} {}", x, d),
-            None => d.clone(),
-        })
-    };
-    // at most three reports per known finding, so that they cannot crowd out a new one (the report is capped)
-    let quota = |rep: &OracleReport, region: Option<&'static str>| match region {
-        Some(r) => rep.failures.iter().filter(|(_, w)| w.starts_with(r)).count() < 3,
-        None => true,
-    };
-    for (name, old) in [("inc_decodes", false), ("inc_decodes_old", true)] {
+    // A wrong decode is judged by the `incremental` stream, where the faithful Lean model of TreeCache has to
+    // reproduce the crate's bytes before it counts as a known finding.  This oracle has no model: it only
+    // counts the wrong decodes that its differential pre-filter (`attribute`) ties to the shapes L, M, N, and
+    // reports the ones it cannot tie to any of them (never as KNOWN: it has no authority for that).
+    let mut verdicts = vec![];
+    for old in [false, true] {
         let mut a2 = Allocator::new();
         let r = catch_unwind(AssertUnwindSafe(|| if old { node_from_bytes_backrefs_old(&mut a2, &bytes) } else { node_from_bytes_backrefs(&mut a2, &bytes) }));
         match r {
-            Ok(Ok(n)) => {
-                let same = same_tree(&a2, n, &want);
-                if same != Ok(true) {
-                    rep.hit("wrong-decode");
-                    let (region, dk) = dk_of(rep);
-                    if !quota(rep, region) {
-                        continue;
-                    }
-                    let got = match same {
-                        Err(sz) => format!("a tree of {} nodes", sz),
-                        _ => short(&trees::encode(&trees::from_node(&a2, n))),
-                    };
-                    rep.fail(name, format!("{} output={} decodes to {} but the assembled tree is {} ({} nodes)", dk, short(&bytes), got, short(&classic), want.nodes()));
-                }
+            Ok(Ok(n)) => match same_tree(&a2, n, &want) {
+                Ok(true) => verdicts.push("ok".to_string()),
+                Ok(false) => verdicts.push(format!("decodes to {}", short(&trees::encode(&trees::from_node(&a2, n))))),
+                Err(sz) => verdicts.push(format!("decodes to a tree of {} nodes", sz)),
+            },
+            Ok(Err(e)) => verdicts.push(format!("decode error {}", if err_kind(&e) == "PathIntoAtom" { "SerializationBackreferenceError".to_string() } else { err_kind(&e) })),
+            Err(_) => {
+                rep.fail("inc_no_panic", format!("{} output={} decoder panicked", d, short(&bytes)));
+                return;
             }
-            Ok(Err(e)) => {
-                rep.hit("wrong-decode");
-                let (region, dk) = dk_of(rep);
-                if quota(rep, region) {
-                    rep.fail(name, format!("{} output={} decode error {}", dk, short(&bytes), err_kind(&e)))
-                }
+        }
+    }
+    if verdicts[0] != verdicts[1] {
+        rep.fail("inc_decoders_agree", format!("{} output={} current decoder: {}; legacy decoder: {}", d, short(&bytes), verdicts[0], verdicts[1]));
+    }
+    if verdicts[0] != "ok" {
+        rep.hit("wrong-decode");
+        let retained: Vec<(bool, T)> = ex.flags.iter().cloned().zip(ex.trees.iter().cloned()).collect();
+        match attribute(sent, steps, !complete, &retained) {
+            None => {
+                rep.hit("wrong-decode:unattributed");
+                rep.fail("inc_decodes", format!("{} output={} {} but the assembled tree is {} ({} nodes); no known shape (L, M, N) applies", d, short(&bytes), verdicts[0], short(&classic), want.nodes()));
             }
-            Err(_) => rep.fail(name, format!("{} output={} decoder panicked", d, short(&bytes))),
+            Some(x) => rep.hit(&format!("wrong-decode:prefilter-{}", &x[6..7])),
         }
     }
     // informational: one-shot compression of the assembled tree (not guaranteed equal, see the crate's tests)
